@@ -364,6 +364,12 @@ def data_matrix(rng, shape, lim=1.5):
         x = rng.integers(-2, 3, size=shape) * 0.5
     elif u < 0.2:
         x = np.where(rng.random(shape) < 0.3, 0.0, x)
+    elif u < 0.27 and isinstance(shape, (tuple, list)) and len(shape) == 2 and shape[1] > 1:
+        # repeated and mirrored snapshots (a trajectory revisiting a state, data symmetrised by hand): exactly dependent columns of the
+        # transformed data, exact ties between even / odd basis functions
+        for _ in range(int(rng.integers(1, 3))):
+            j, k = (int(v) for v in rng.choice(shape[1], size=2, replace=False))
+            x[:, j] = x[:, k] if rng.random() < 0.6 else -x[:, k]
     x = np.asarray(x, dtype=float)
     if rng.random() < 0.2:
         x = relayout_array(rng, x)
